@@ -100,6 +100,11 @@ pub fn c20_probes(t: &[u8]) -> Option<(Vec<Probe>, u64, u64)> {
 		let mut n = 0usize;
 		for sg in p.segments() {
 			n += 1;
+			// read-only queries on a segment are part of the same allocation-free walk
+			if sg.looks_like_scheme() {
+				n += 1;
+			}
+			n += sg.as_pct_str().as_bytes().len() & 1;
 			let l = locate(input, sg.as_bytes());
 			if !matches!(l, Loc::Inside(..)) && !sg.as_bytes().is_empty() {
 				worst = l;
